@@ -545,6 +545,24 @@ package table
 //@   requires p != nil && vrf != nil
 //@   claims at-return
 //@   at-return requires (newFamily == 0) ==> (rf != bgp.RF_FS_IPv4_UC && rf != bgp.RF_FS_IPv6_UC && rf != bgp.RF_IPv4_UC && rf != bgp.RF_IPv6_UC)
+// from C06 "treat-as-withdraw ... every prefix the UPDATE names is removed from the peer's routes" (and C02: a route is
+// identified by prefix and path id): every path made from a received UPDATE carries the path identifier its NLRI
+// came with, and under treat-as-withdraw every one of them is a withdrawal
+//@ func NewPath
+//@   tag C06 C10
+//@   modifies nothing
+//@   claims post
+//@   ensures result != nil ==> fresh(result) && result.IsWithdraw == isWithdraw && result.family == family
+//@ func (*Path).SetHash
+//@   tag C06
+//@   requires p != nil
+//@   modifies p.attrsHash.*
+//@ func ProcessMessage
+//@   tag C06
+//@   requires m != nil
+//@   claims at-call
+//@   at-call append(pathList, p) requires p != nil ==> p.remoteID == nlri.ID && (treatAsWithdraw ==> p.IsWithdraw)
+
 // from C10 "conditions ... evaluated per the documented model": a prefix-set entry matches a route when it covers the
 // route's prefix and the route's mask length is within the entry's range - ANY covering entry, so the decision is
 // made over all covering entries of the set (the walk over the supernets), not over the longest one alone
